@@ -5,4 +5,15 @@ TABLE = {
    text="Every (state, event, valuation) edge of every machine in the bounded candidate family is executed on the real engines (sync rtc/non-rtc, async facade/in-loop, coroutine masks none/all/actions-only) and compared with an independent reference selector: stored state, exception class and its event/state, callback trace, allowed_events. Exhaustive within the stated bounds; nothing sampled.",
    note="Trusted: reference interpreter mc/ref.py (selection in declaration order, all-of cond, none-of unless, validators first) and the shims in mc/spec.py. Bounds: <=2 (3 reduced) candidates per state, two guard names, one validator, histories <=2 (3).",
    ref="DESIGN.md section 3 C01"),
+ "C03": dict(
+   technique="exhaustive enumeration of nested-send rule sets x external histories x 4 engine configs on the real library, each execution compared step-by-step with a deque reference model; stack-depth monitor on self-triggering chains up to 2000 links",
+   text="Every scenario of the bounded family (<=2 rules quick / <=3 thorough placing 1-2 nested sends in any callback phase of any provider incl. initial activation; histories <=2/3; sync rtc, sync non-rtc, async facade, async in-loop; generic and sparse callback rings) is executed on the real engines; the exact group sequence per event instance, the state every callback observes, every nested call's return value and the outer call's result are compared with the reference. Chains of 1/5/50/2000 self-sends must run at constant frame depth under RTC.",
+   note="Trusted: mc/ref.py deque semantics. Scenarios whose queue order would depend on intra-group callback order (two sending callbacks in one group) are excluded and counted (ambiguous_skipped).",
+   ref="DESIGN.md section 3 C03"),
+ "C04": dict(
+   category="fault_enumeration",
+   technique="fault enumeration: every callback invocation position of every base scenario (from the validated reference trace) is re-executed with an injected exception, then follow-up events and second faults; compared with a reference that has fault semantics",
+   text="Single faults at every callback invocation position (validators, guards, before, exit, on, enter, after; machine, model, listener; first, nested and queued transitions) of every base scenario, plus double faults (second fault at every position of the follow-up) on the rule-free and guarded families, on sync rtc/non-rtc and async engines; exception identity at the outermost caller, stored state, dropped queue, lock/queue cleanliness and normal processing of three follow-up events are checked against the reference.",
+   note="Trusted: mc/ref.py. Fault classes rotate over Exception/RuntimeError/LookupError/AttributeError/TypeError subclasses; BaseException is outside the statement. Siblings of the failing callback inside the same group may or may not run.",
+   ref="DESIGN.md section 3 C04"),
 }
